@@ -15,7 +15,7 @@ contract(T3 + 'Type3Tag.NDEF._read_ndef_data', 'C08', dict(self=NDEF3()), name='
                   ('post.commands', 'self._tag.commands <= 2 + 65536')],
          raises={},
          loops={('nfc.tag.tt3.Type3Tag.NDEF._read_ndef_data', 'For', 0): LoopSpec(
-             invariant=['len(data) <= 16 * (_k * attributes["nbr"])', 'self._tag.commands <= 2 + _k'],
+             invariant=['len(data) <= 16 * (_k * nbr)', 'self._tag.commands <= 2 + _k'],
              havoc={'data': Bytes(0, None, mutable=True), 'self._tag.commands': Int(0, None)})})
 
 T4 = 'nfc.tag.tt4:'
